@@ -77,6 +77,10 @@ func manifestShape(t *testing.T, m *manifest.Manifest) string {
 	strip := func(list any) {
 		l, _ := list.([]any)
 		for _, e := range l {
+			// method offsets belong to the script, not to the ABI: they legitimately differ when the
+			// script differs (which is judged on its own); consistency of the shipped pair is exercised
+			// by deploying and calling the embedded contracts
+			delete(e.(map[string]any), "offset")
 			ps, _ := e.(map[string]any)["parameters"].([]any)
 			for _, p := range ps {
 				delete(p.(map[string]any), "name")
